@@ -24,7 +24,7 @@ THEOREMS = [
     "bin_value", "bin_roundtrip_partial", "bin_roundtrip_negzero_witness", "bin_roundtrip_inf", "bin_roundtrip_nan",
     "mpf_value", "mpf_roundtrip_partial", "mpf_roundtrip_negzero_witness", "mpf_roundtrip_inf", "mpf_roundtrip_nan",
     "mpf2float_float2mpf_tuple", "float2mpf_lowprec_witness",
-    "expansion2mpf_value", "expansion_value", "expansion_inf", "expansion_nan_witness", "rspec_satisfiable",
+    "expansion2mpf_value", "expansion_value", "expansion_inf", "expansion_nan", "expansion_nan_old_loop_regression", "rspec_satisfiable",
     "multiword_value_partial", "multiword_zero_window_witness", "multiword_nonfinite_witness", "multiword_maxlength1_witness",
 ]
 SEARCHED = [
@@ -257,7 +257,7 @@ def gen_mpfs(F, rng, n):
             else:
                 out.append((prec, norm_tuple(rng.getrandbits(1), man, exp), "generic"))
         else:
-            k = rng.choice(["inf", "-inf", "zero"])
+            k = rng.choice(["inf", "-inf", "zero", "nan"])
             out.append((prec, SPECIALS[k], "special:" + k))
     return out
 
@@ -421,18 +421,22 @@ def run(ctx):
             mpf_cases.append(dict(F=F, prec=prec, tup=t, p=pp if pp is None or pp <= p else None, max_length=ml, length=length, cls=cls))
             if rng.random() < 0.5:
                 mpf_cases.append(dict(F=F, prec=prec, tup=t, p=None, max_length=None, length=None, cls=cls))
-    # the two non-finite paths once per format (the real mpf2expansion never returns on NaN: guarded, 2 s each)
-    lines.append("m2e 16 53 0 0 -123 -1 N 0 400")
+    # the non-finite paths in every format (NaN -> [nan] since /repo 81efdaa; a time-out of the worker's CPU guard is a failure)
     for F in ("16", "32", "64"):
+        lines.append(f"m2e {F} 53 0 0 -123 -1 N 0 400")
+        lines.append(f"m2e {F} 53 0 0 -123 -1 N 1 400")
+        lines.append(f"m2e {F} 53 0 0 -123 -1 3 0 400")
         lines.append(f"m2e {F} 53 0 0 -123 -1 3 1 400")
+        lines.append(f"e2m {F} 53 {((2 ** FMTS[F][1] - 1) << (FMTS[F][0] - 1)) + (1 << (FMTS[F][0] - 2))}")
         lines.append(f"m2w {F} 53 0 0 -123 -1 N N")
         lines.append(f"m2w {F} 53 0 0 -456 -2 N N")
         lines.append(f"e2m {F} 53")
         lines.append(f"w2m {F} 53")
         mpf_cases.append(dict(F=F, prec=53, tup=SPECIALS["inf"], p=None, max_length=None, length=None, cls="special:inf"))
         mpf_cases.append(dict(F=F, prec=53, tup=SPECIALS["-inf"], p=None, max_length=None, length=None, cls="special:-inf"))
-    mpf_cases.append(dict(F="32", prec=53, tup=SPECIALS["nan"], p=None, max_length=None, length=None, cls="special:nan"))
-    mpf_cases.append(dict(F="32", prec=53, tup=SPECIALS["nan"], p=None, max_length=None, length=3, cls="special:nan"))
+    for F in ("16", "32", "64"):
+        mpf_cases.append(dict(F=F, prec=53, tup=SPECIALS["nan"], p=None, max_length=None, length=None, cls="special:nan"))
+        mpf_cases.append(dict(F=F, prec=rng.choice([24, 100]), tup=SPECIALS["nan"], p=None, max_length=None, length=3, cls="special:nan"))
 
     lap("generate")
     # ---- 2. real code, phase 1 ---------------------------------------------------------------
@@ -603,15 +607,17 @@ def replay(ctx, obj):
 LEVEL_TEXT = ("Proof. Theorems (Lean kernel; every format with 2 <= ew, 3 <= p <= 2^(ew-1), every bit pattern): float2fraction returns exactly "
               "the decoded value and fraction2float(float2fraction(b)) = b up to the sign of zero; the float2bin string denotes the decoded value and "
               "bin2float(float2bin(b)) = b at string level for every finite b other than -0; float2mpf yields the normalised tuple of the decoded "
-              "value and mpf2float(float2mpf(b)) = b (b != -0) when the context precision is at least p; inf and NaN map to themselves on these paths; "
+              "value and mpf2float(float2mpf(b)) = b (b != -0) when the context precision is at least p; inf and NaN map to themselves on these paths "
+              "and through expansions (mpf2expansion(nan) = [nan], full strength since the repair 81efdaa in /repo); "
               "expansion2mpf/multiword2mpf return the exact sum when the partial sums fit the precision; mpf2expansion (for any rounding step "
               "satisfying RSpec, shown satisfiable) and mpf2multiword (mantissa without an all-zero window) terminate with words whose exact sum "
               "is the input and that convert back to the input tuple. The hand model is tied to the real functions by an exhaustive float16 "
               "correspondence (65 536 patterns x 7 conversions), directed float32/float64 sweeps, seeded mpf values and a malformed-string stream "
               "on every run; the property clauses are searched on the real code against Fraction/integer references.")
 LEVEL_NOTE = ("Partial exactly where the code violates a clause (known findings, each with a Lean negation witness): -0.0 loses its sign through "
-              "float2bin and float2mpf; mpf2expansion(nan) never terminates (proved for all formats); mpf2multiword maps inf/nan to [], fails for "
+              "float2bin and float2mpf; mpf2multiword maps inf/nan to [], fails for "
               "max_length=1, and drops or double-counts bits when a mantissa window is all zero. RSpec for the real mpf2float is a hypothesis "
-              "(C15) checked by search. Trusted: Lean kernel; numpy scalar semantics; mpmath's kernel as ported (round-to-nearest, exact add then "
+              "(C15) checked by search. One defect found by this check is repaired in /repo (81efdaa: mpf2expansion(nan) looped forever); its "
+              "regression theorem and corpus case remain. Trusted: Lean kernel; numpy scalar semantics; mpmath's kernel as ported (round-to-nearest, exact add then "
               "normalise); mpf2expansion with base is not covered.")
 TECHNIQUE = "Lean 4 proofs over a bit-pattern / string / mpf-tuple model + exhaustive float16 line-protocol correspondence with the real helpers"
